@@ -3,6 +3,7 @@
 mod l3;
 mod fields;
 mod fields_gen;
+mod msgs;
 
 pub struct Rng(pub u64);
 impl Rng {
@@ -183,6 +184,7 @@ fn main() {
             "iter" => search_scan(&mut rng, budget, "iter"),
             "chunks" => search_chunks(&mut rng, budget),
             "corrupt" => search_corrupt(&mut rng, budget),
+            "msgs" => match msgs::search(&mut rng, budget) { Ok(n) => n, Err((p, why)) => found("msgs", &p, &[], &why, 0) },
             "lossless" | "quant" => {
                 let only = a.get(5).cloned();
                 let mut n = 0u64;
@@ -237,6 +239,7 @@ fn main() {
             "scan" => l3::check_scan(&inp),
             "iter" => l3::check_iter(&inp),
             "chunks" => l3::check_chunks(&inp, &cuts),
+            "msgs" => msgs::check_payload(&inp),
             "corrupt" => { use rtcm_rs::prelude::*; if MessageFrame::new(&inp).is_ok() || next_msg_frame(&inp).1.is_some() { Some("corrupted frame accepted/delivered".to_string()) } else { None } }
             k => { eprintln!("unknown kind {}", k); std::process::exit(2) }
         };
